@@ -824,7 +824,11 @@ func (e *kEnv) newJob(second bool) (*kjob, error) {
 	}{{"boundary-at", d1, +1}, {"boundary-above", d2, -1}} {
 		wsb := types.CopyWorkObjectHeader(ws)
 		wsb.SetDifficulty(v.d)
-		add(e.mkObj(job, v.kind, "", wsb, a, body, v.must, -1, ""))
+		full := -1 // the declared difficulty is sealed: the coinbase commits to another seal hash
+		if v.d.Cmp(job.d) == 0 {
+			full = +1 // the ground hash sits in the topmost difficulty bucket of its target: this IS the valid object
+		}
+		add(e.mkObj(job, v.kind, "", wsb, a, body, v.must, full, ""))
 	}
 	// a sealed Quai field changed under the same AuxPoW
 	for _, f := range e.wf {
@@ -1063,7 +1067,7 @@ func (e *kEnv) session(idx, nJobs, nExtra, nPar int) {
 		if wfs := e.pick(j.objs, "wo-field", r.Intn(8)); wfs != nil {
 			fs = append(fs, kstep{"CalcOrder+VerifyHeader", wfs})
 		}
-		for _, o := range []*kobj{e.pick(cross, "seal-on-other-header", ji), RS, FA, MA, V2, W0, e.pick(j.objs, "donor-field:"+[]string{"version", "prevblock", "merkleroot", "time", "bits", "height"}[r.Intn(6)], 0)} {
+		for _, o := range []*kobj{e.pick(cross, "seal-on-other-header", ji), RS, FA, MA, V2, W0, BA, BB, e.pick(j.objs, "donor-field:"+[]string{"version", "prevblock", "merkleroot", "time", "bits", "height"}[r.Intn(6)], 0)} {
 			if o != nil {
 				fs = append(fs, kstep{"CalcOrder+VerifyHeader", o})
 			}
@@ -1081,6 +1085,35 @@ func (e *kEnv) session(idx, nJobs, nExtra, nPar int) {
 	}
 	if idx%2 == 0 {
 		e.sealerCase(s)
+	}
+
+	// ---- phase 1b: epoch walk. Donor heights climb through consecutive epochs that are all above anything this
+	// engine has seen (the way block heights advance in production: each step lands on the cache the engine
+	// pre-generated as "future"), far enough to evict the first ones, then return to them.
+	{
+		j := serial[r.Intn(len(serial))]
+		base := uint32(700 + r.Intn(200)) // sizes computed, nothing pre-generated
+		if idx%2 == 0 {
+			base = uint32(30 + r.Intn(60)) // inside the size tables: the engine pre-generates epoch+1 while it serves epoch
+		}
+		walkOps := []string{"Engine.ComputePowLight", "Engine.VerifyKawpowShare", "VerifySeal", "Engine.ComputePowHash"}
+		for step, off := range []uint32{0, 1, 2, 3, 4, 0, 1, 5, 2, 6} {
+			c := j.a.clone()
+			c.d.height = (base+off)*7500 + uint32(r.Intn(7500))
+			o := e.mkObj(j, "epoch-walk", fmt.Sprintf("epoch+%d", off), j.ws, c, j.blk.Body(), -1, -1, "donor-height")
+			if o == nil {
+				continue
+			}
+			s.objs = append(s.objs, o)
+			t := e.truthOf(o)
+			m.Eval("sensitivity/donor-height", fmt.Sprintf("%x", o.wire))
+			if t.pow == j.pow1 || t.mix == j.mix1 {
+				m.Violation("powhash-insensitive:kawpow:donor-height", fmt.Sprintf("a brand-new engine computes mix %s pow %x for donor height %d and for the ground seal's height %d", t.mix.Hex(), t.pow, o.height, j.a.d.height),
+					e.witness(s, "epoch-walk", e.opBy["Engine.ComputePowLight"], o, "cold", kres{}, kres{}, nil))
+			}
+			e.query(s, "epoch-walk", e.opBy[walkOps[step%2]], o)
+			e.query(s, "epoch-walk", e.opBy[walkOps[r.Intn(len(walkOps))]], o)
+		}
 	}
 
 	// ---- phase 2: PRNG-chosen (entry point, object) pairs with locality
@@ -1190,7 +1223,7 @@ func TestC08KawpowReal(t *testing.T) {
 		"valid seals are found by a nonce64 search with VerifyKawpowShare on a separate instance, and by the production Seal (whose start nonce is drawn from a time-seeded PRNG inside the engine: the nonce it finds is recorded in the witness, not reproducible from the seed)",
 		"work objects are children of genesis in a prime-context HeaderChain with MuSig2 harness keys (as in stage auxpow); every query decodes the header anew from its proto bytes",
 		"a re-committed coinbase (reseal-other-content) keeps the template signature valid because the signed template does not cover the seal hash",
-		"not covered: VerifyUncles and the gossip validator with the real engine, ApplyPoWFilter, epochs beyond the 2048-entry size tables, PowMode normal")
+		"not covered: VerifyUncles and the gossip validator with the real engine, ApplyPoWFilter, PowMode normal (real cache sizes), on-disk caches (CacheDir)")
 
 	s, err := installHarnessKeys()
 	if err != nil {
@@ -1209,10 +1242,14 @@ func TestC08KawpowReal(t *testing.T) {
 	for _, op := range e.ops {
 		e.opBy[op.name] = op
 	}
-	// five epochs per run: more than the engine keeps in memory (3 + the look-ahead one), few enough to be revisited
-	for len(e.epochs) < 5 {
-		e.epochs = append(e.epochs, uint32(r.Intn(600)))
+	// six epochs per run: more than the engine keeps in memory (3 + the pre-generated "future" one), few enough to be
+	// revisited after eviction; two adjacent pairs beyond the engine's 100-entry size tables (Ravencoin's present heights
+	// are there: sizes are computed, no cache is pre-generated) and two epochs inside the tables
+	for len(e.epochs) < 4 {
+		ep := uint32(100 + r.Intn(500))
+		e.epochs = append(e.epochs, ep, ep+1)
 	}
+	e.epochs = append(e.epochs, uint32(r.Intn(20)), uint32(r.Intn(20)))
 	sessions := m.N(8, 160)
 	nJobs, nExtra, nPar := 3, m.N(50, 150), m.N(6, 20)
 	for i := 0; i < sessions; i++ {
@@ -1233,7 +1270,8 @@ func TestC08KawpowReal(t *testing.T) {
 		"CalcOrder+VerifyHeader/valid/cold", "CalcOrder+VerifyHeader/valid/warm-same-input", "CalcOrder+VerifyHeader/wo-field/warm-same-input",
 		"CalcOrder+VerifyHeader/seal-on-other-header/warm-same-input", "CalcOrder+VerifyHeader/reseal-other-content/warm-same-input", "CalcOrder+VerifyHeader/nonce-changed-mix-replayed/warm-same-input",
 		"sensitivity/nonce64", "sensitivity/donor-version", "sensitivity/donor-prevblock", "sensitivity/donor-merkleroot", "sensitivity/donor-time", "sensitivity/donor-bits", "sensitivity/donor-height",
-		"sensitivity/donor-merkleroot(recommitted)", "Seal/solution-verifies", "entry-points-agree/VerifyKawpowShare-vs-ComputePowLight")
+		"sensitivity/donor-merkleroot(recommitted)", "Seal/solution-verifies",
+		"Engine.ComputePowLight/epoch-walk/warm-same-nonce", "Engine.VerifyKawpowShare/epoch-walk/warm-same-nonce", "entry-points-agree/VerifyKawpowShare-vs-ComputePowLight")
 	m.Floor(int64(sessions*(nExtra+60)), 120)
 
 	// what was observed, by entry point / object kind / cache state
